@@ -128,6 +128,20 @@ def check(cx):
         if fname not in removed_by_field:
             r3.violation('teardown|not-cleaned|%s.%s' % (sp.split('::')[-1], fname), 'when a session ends its nick is not removed from %s.%s'
                          % (sp.split('::')[-1], fname), loc=ft)
+            continue
+        # the removal may depend only on things being present (the user, the visited channel, the member's rank flag for that very
+        # set); any other condition leaves a stale entry behind for some history
+        from .structs import RANK_FLAG
+        ok_any = False
+        for e in removed_by_field[fname]:
+            assume = [Atom(a) for a in atoms(e.pc) if a[0] == 'is' or a == CONN_AUTH or
+                      (a[0] == 'flag' and fname in RANK_FLAG and path_of(a[1])[-1:] == [RANK_FLAG[fname]])]
+            if entails(And(*assume), e.pc)[0]:
+                ok_any = True
+        if not ok_any:
+            r3.violation('teardown|conditional-clean|%s.%s' % (sp.split('::')[-1], fname), 'when a session ends its nick is removed from %s.%s '
+                         'only under an extra condition (%s): some histories leave a stale entry behind'
+                         % (sp.split('::')[-1], fname, show(removed_by_field[fname][0].pc)[-120:]), loc=cx.loc(removed_by_field[fname][0].node))
     hist = [(e, x) for e, x in effs if x['op'] in ('push',) and 'nick_histories' in path_of(x['place'])]
     r3.instance('one WHOWAS record per departure')
     ent = ('some_of', ('call', 'std::collections::HashMap::<K, V, S>::remove', USERS, NICKT))
